@@ -140,6 +140,9 @@ fn effective_site(raw: u8, cached: bool) -> u8 {
     }
 }
 
+/// Payload of the panic a user callback raises on the harness's request.
+struct ScriptedPanic;
+
 struct WorkerCtx {
     idx: usize,
     rx: Receiver<Cmd>,
@@ -166,6 +169,7 @@ fn callback(site: u8, holding: Option<Tagged>) {
         }
         match ctx.rx.recv() {
             Ok(Cmd::Resume) => {}
+            Ok(Cmd::ResumePanic) => std::panic::panic_any(ScriptedPanic),
             _ => panic!("harness: coordinator went away while parked in a gate"),
         }
     });
@@ -322,6 +326,10 @@ struct Gate {
     /// fires the k-th time (1-based) the reader passes that site in the main phase
     k: u8,
     actions: Vec<Step>,
+    /// user-callback sites only (`Tagged::clone` / the initialiser fn): after the actions ran, the
+    /// callback panics - user code may - so the read that was initialising the region unwinds
+    #[serde(default)]
+    panic: bool,
 }
 
 #[derive(Debug, Clone, Serialize, Deserialize)]
@@ -384,8 +392,9 @@ fn case_strategy() -> impl Strategy<Value = Case> {
                     prop_oneof![5 => Just(1u8), 3 => Just(2u8), 2 => 3u8..=5],
                     1u8..=40,
                     prop::collection::vec(step_strategy(9), 1..5),
+                    prop::bool::weighted(0.25),
                 )
-                    .prop_map(|(reader, site, k, ksync, actions)| Gate { reader, site, k: if site == SITE_SYNC { ksync } else { k }, actions }),
+                    .prop_map(|(reader, site, k, ksync, actions, panic)| Gate { reader, site, k: if site == SITE_SYNC { ksync } else { k }, actions, panic: panic && site == SITE_USER }),
                 0..5,
             ),
             prop::bool::weighted(0.6),
@@ -415,6 +424,8 @@ enum Cmd {
     /// pin to processor set of a region: (region id, processor ids)
     Pin(Vec<u32>),
     Resume,
+    /// resume a thread parked in a user callback by panicking out of that callback
+    ResumePanic,
     /// quiescent phase: stop reporting sites
     GatesOff,
     Exit,
@@ -428,6 +439,8 @@ enum Outcome {
     Ready,
     Ended,
     Panic(String),
+    /// the operation unwound with the panic the harness itself raised in a user callback
+    ScriptedPanic,
 }
 
 #[derive(Debug)]
@@ -526,7 +539,7 @@ fn worker_main<K: Kind>(idx: usize, rx: Receiver<Cmd>, events: Sender<Event>) {
                 }
                 _ => {}
             }
-            let outcome = vcommon::catch(|| {
+            let outcome = std::panic::catch_unwind(std::panic::AssertUnwindSafe(|| {
                 let fresh;
                 let inst: &Inst<K> = match &held {
                     Some(i) => i,
@@ -547,8 +560,9 @@ fn worker_main<K: Kind>(idx: usize, rx: Receiver<Cmd>, events: Sender<Event>) {
                     }
                     _ => Outcome::Pinned,
                 }
-            });
-            if !done(outcome.unwrap_or_else(Outcome::Panic)) {
+            }))
+            .unwrap_or_else(|p| if p.is::<ScriptedPanic>() { Outcome::ScriptedPanic } else { Outcome::Panic(vcommon::panic_message(&*p)) });
+            if !done(outcome) {
                 exit = true;
                 break;
             }
@@ -720,6 +734,8 @@ struct Run<'a> {
     /// reads issued although they have to wait for a parked initialiser; their `Done` arrives later
     waiters: Vec<Waiter>,
     waiter_reads: u32,
+    /// reads that unwound with a panic the harness raised in the region's initialiser callback
+    scripted_panics: u32,
 }
 
 struct Waiter {
@@ -892,6 +908,12 @@ impl Run<'_> {
                         self.reads.push(ReadRec { thread: t, region, value, start, end, final_phase: self.final_phase, own_prev });
                         Ok(())
                     }
+                    // the region's initialiser callback panicked on request: the read unwound
+                    // without a value; everything else goes on as if it had never been issued
+                    Outcome::ScriptedPanic => {
+                        self.prev_write[t] = own_prev;
+                        Ok(())
+                    }
                     o => Err(Stop::Protocol(format!("read answered {o:?}"))),
                 }
             }
@@ -1022,22 +1044,24 @@ impl Run<'_> {
                     if thread != t {
                         return Err(Stop::Protocol(format!("callback from {thread} while {t} was running")));
                     }
+                    let mut by_panic = false;
                     if pending.is_none() {
                         match self.on_callback(t, site, holding) {
-                            Ok(()) => {}
+                            Ok(p) => by_panic = p,
                             Err(e @ Stop::Hang(_)) => return Err(e),
                             Err(e) => pending = Some(e),
                         }
                     }
-                    self.send(t, Cmd::Resume)?;
+                    self.send(t, if by_panic { Cmd::ResumePanic } else { Cmd::Resume })?;
                 }
             }
         }
     }
 
-    fn on_callback(&mut self, t: usize, site: u8, holding: Option<Tagged>) -> Result<(), Stop> {
+    /// Returns whether the parked thread is to be resumed by panicking out of its user callback.
+    fn on_callback(&mut self, t: usize, site: u8, holding: Option<Tagged>) -> Result<bool, Stop> {
         if self.final_phase || site as usize >= NSITES {
-            return Ok(());
+            return Ok(false);
         }
         let region = self.region_of[t];
         // --- model of the initialising marker and of the value being installed
@@ -1062,7 +1086,7 @@ impl Run<'_> {
         let init_site = matches!(site, SITE_USER | SITE_INIT_BEGUN | SITE_PRODUCED | SITE_INSTALLED | SITE_ANNOUNCED | SITE_LOADED);
         if init_site && region.is_none() {
             // an initialiser in an unknown region cannot be modelled
-            return Ok(());
+            return Ok(false);
         }
         // region_local runs the initialiser once per region, so a reader rarely passes an
         // initialisation site twice: such gates fire at the reader's next passes, in list order
@@ -1081,10 +1105,10 @@ impl Run<'_> {
             })
             .map(|(i, _)| i);
         let Some(gi) = gate else {
-            return Ok(());
+            return Ok(false);
         };
         if self.stack.len() >= MAX_DEPTH {
-            return Ok(());
+            return Ok(false);
         }
         self.fired[gi] = true;
         let w = self.windows.len();
@@ -1122,7 +1146,13 @@ impl Run<'_> {
             };
         }
         self.stack.pop();
-        res
+        res.map(|()| {
+            let p = case.gates[gi].panic && site == SITE_USER;
+            if p {
+                self.scripted_panics += 1;
+            }
+            p
+        })
     }
 }
 
@@ -1162,6 +1192,8 @@ struct Report {
     unpinned_reads: u32,
     #[serde(default)]
     waiter_reads: u32,
+    #[serde(default)]
+    scripted_panics: u32,
 }
 
 #[derive(Debug, Serialize, Deserialize)]
@@ -1231,6 +1263,7 @@ fn exec_case<K: Kind>(case: &Case, pool_slot: &mut Option<Pool>) -> ChildReply {
         unpinned_reads: 0,
         waiters: Vec::new(),
         waiter_reads: 0,
+        scripted_panics: 0,
     };
 
     // --- threads (the last one is the sweeper: instance first, then visits every region at the end)
@@ -1289,6 +1322,7 @@ fn exec_case<K: Kind>(case: &Case, pool_slot: &mut Option<Pool>) -> ChildReply {
             skipped_parked: run.skipped_parked,
             unpinned_reads: run.unpinned_reads,
             waiter_reads: run.waiter_reads,
+            scripted_panics: run.scripted_panics,
         }),
         Err(Stop::Hang(m)) => ChildReply::Hang(m),
         Err(Stop::Panic(m)) => ChildReply::Panic(m),
@@ -1387,6 +1421,9 @@ fn judge(run: &Report, cached: bool, name: &str, ctx: &mut Ctx) -> Verdict {
     }
     if run.skipped_blocked > 0 {
         ctx.classify("action-skipped:would-wait-for-parked-initialiser");
+    }
+    if run.scripted_panics > 0 {
+        ctx.classify("initialiser-callback-panicked(read-unwound)");
     }
     if run.waiter_reads > 0 {
         ctx.classify("read-waited-for-a-parked-initialiser(waiter-path)");
